@@ -8,7 +8,7 @@
 //!
 //! The limits are written here as independent literals (2^53-1), not taken from the crate.
 #![allow(clippy::all)]
-use serde::de::value::{Error as DeError, I64Deserializer, U64Deserializer};
+use serde::de::value::{Error as DeError, F64Deserializer, I64Deserializer, U64Deserializer};
 use serde::de::IntoDeserializer;
 use serde::{Deserialize, Serialize};
 use std::cmp::Ordering;
@@ -153,6 +153,35 @@ pub fn ob_u53_deserialize(v: u64) -> Ob {
     if let Ok(x) = r {
         ensure!(u64::from(x) == v, "deserialised U53 holds the value");
     }
+    Ok(())
+}
+
+/// An error type that does not format its message (formatting an f64 inside CBMC is out of reach and irrelevant here).
+#[derive(Debug)]
+pub struct NoMsg;
+impl std::fmt::Display for NoMsg {
+    fn fmt(&self, f: &mut std::fmt::Formatter<'_>) -> std::fmt::Result {
+        f.write_str("deserialisation error")
+    }
+}
+impl std::error::Error for NoMsg {}
+impl serde::de::Error for NoMsg {
+    fn custom<T: std::fmt::Display>(_msg: T) -> Self {
+        NoMsg
+    }
+}
+
+/// A JSON number that is not an integer token (serde hands it over as f64) is never accepted: `bits` is the IEEE-754 pattern,
+/// so every double - fractions, whole doubles, infinities, NaNs - is covered.
+pub fn ob_u53_deserialize_f64(bits: u64) -> Ob {
+    let d: F64Deserializer<NoMsg> = F64Deserializer::new(f64::from_bits(bits));
+    ensure!(U53::deserialize(d).is_err(), "Deserialize for U53 rejects a floating point token");
+    Ok(())
+}
+
+pub fn ob_i54_deserialize_f64(bits: u64) -> Ob {
+    let d: F64Deserializer<NoMsg> = F64Deserializer::new(f64::from_bits(bits));
+    ensure!(I54::deserialize(d).is_err(), "Deserialize for I54 rejects a floating point token");
     Ok(())
 }
 
@@ -332,6 +361,8 @@ mod proofs {
     harness!(i54_order, w_i54_order, |a: i64, b: i64| ob_i54_order(a, b), a == -ILIM && b == ILIM);
     harness!(u53_deserialize, w_u53_deserialize, |v: u64| ob_u53_deserialize(v), v == LIM);
     harness!(i54_deserialize, w_i54_deserialize, |v: i64| ob_i54_deserialize(v), v == -ILIM);
+    harness!(u53_deserialize_f64, w_u53_deserialize_f64, |b: u64| ob_u53_deserialize_f64(b), b == 0x402D_0000_0000_0000);
+    harness!(i54_deserialize_f64, w_i54_deserialize_f64, |b: u64| ob_i54_deserialize_f64(b), b == 0xC02D_0000_0000_0000);
     harness!(u53_serialize, w_u53_serialize, |v: u64| ob_u53_serialize(v), v == LIM);
     harness!(i54_serialize, w_i54_serialize, |v: i64| ob_i54_serialize(v), v == -ILIM);
 
